@@ -131,7 +131,19 @@ class LeakyReluPlugin(PrimitiveLeafPlugin):
         ) -> Callable[..., ArrayLike]:
             if orig is None:
                 raise RuntimeError("Original jax.nn.leaky_relu not found")
-            return lambda *args, **kwargs: cls._PRIM.bind(*args, **kwargs)
+
+            def _patched(x: ArrayLike, *args: object, **kwargs: object) -> ArrayLike:
+                # jax.nn.leaky_relu(x, negative_slope) also takes its parameter positionally;
+                # only ``x`` is an operand of the primitive.
+                if len(args) > 1 or (args and "negative_slope" in kwargs):
+                    raise TypeError(
+                        "leaky_relu() takes x and an optional negative_slope argument"
+                    )
+                if args:
+                    kwargs["negative_slope"] = args[0]
+                return cls._PRIM.bind(x, **kwargs)
+
+            return _patched
 
         return [
             AssignSpec("jax.nn", "leaky_relu_p", cls._PRIM, delete_if_missing=True),
